@@ -4,6 +4,7 @@ stays valid while checks are added)."""
 import json, os, subprocess
 ROOT = os.path.dirname(os.path.dirname(os.path.abspath(__file__)))
 
+E2T = "controlled scheduler (CHESS-style stateless DFS with preemption bound) over the real threads of the real Nucleo: every schedule of the instrumented points up to the bound"
 E1 = "bounded-exhaustive enumeration of inputs/histories on the real code against an independent reference model (explicit enumeration, no sampling, no solver)"
 CHECKS = {
  "C01": dict(engine="e1", technique="bounded-exhaustive input enumeration (all strings over class-representative alphabets up to a length bound x 16 configurations x 4 representation pairs) against a subsequence reference",
@@ -48,6 +49,24 @@ CHECKS = {
  "C09": dict(engine="e3", technique="loom: exhaustive exploration of the real boxcar.rs with happens-before tracking of every payload cell and of bucket initialisation",
    text="Same bodies as C08 with tracking on: every slot/column access through UnsafeCell::get() and every use of a bucket's flag array is reported to a per-address loom cell, so any pair of accesses not ordered by the executed atomics with their declared orderings fails the execution - under the C11 model, not the host hardware; the final drop of the vector is included. The parts of the statement outside boxcar.rs (worker result list, matcher scratch) are reachable only through Arc<Mutex<Worker>> guards in safe code; the scheduler checks monitor run overlap and per-thread matcher use.",
    note="loom cannot execute parking_lot/rayon, so worker.rs/lib.rs are not explored at memory-model level (type-system argument + SC monitors); column reads through raw pointers are covered by the C08 value oracle rather than by tracking."),
+ "C06": dict(engine="e2", technique=E2T+"; snapshot-consistency monitors after every tick",
+   text="Scenario families (pattern edit / restart between ticks, two injector threads pushing and batch-extending, pools of 1 and 2 threads, 1-2 columns) are executed on a fresh real Nucleo under every schedule with at most the stated number of preemptions (quick: 0 on the large scripts, 1 on the small ones; thorough: 1 and 2); writers are suspended between reserving an index and publishing it, the order in which pool threads report in-flight items is an owned environment choice. After every tick the snapshot is judged: every match published (checked accessor before any unchecked one; a cfg-gated probe reports an unchecked dereference of an unpublished item; a crashing child is reported with its schedule), no duplicates, scores equal to the snapshot pattern on a reference matcher, exactness against the published set, documented order.",
+   note="Sequentially consistent interleavings at hook points; scans of the item vector are atomic w.r.t. writers (atomic-granularity interleavings of the vector are C08/C09); bounded scripts (<= 8 items)."),
+ "C07": dict(engine="e2", technique=E2T+" + exhaustive enumeration of edit/tick/restart/inject histories up to a depth bound, compared at quiescence with the from-scratch result",
+   text="Every history of up to 3 (thorough 4) operations over {13 pattern texts with truthful append hints, tick, restart(true/false), push, extend} on pools of 1 and 2 threads, each tick branching on timeout vs completion, followed by a drain; plus interleaved scenarios with an injector thread; at quiescence the snapshot must equal (items, scores, order, count, pattern) what the reference computes from all items of the current stream.",
+   note="update_config is outside the claim as the property states; histories are bounded; the drain blocks until the run in flight has released the worker (models 'waiting long enough')."),
+ "C12": dict(engine="e2", technique=E2T+"; stream-isolation monitors",
+   text="Family B: tick, restart(true|false), optional second restart, an injector of the old stream that keeps pushing from its own thread across the restart, an injector of the new stream handed over after it; every schedule up to the bound; monitors: clear is immediate, keep leaves the view identical until a run over the new stream completes, a snapshot never mixes streams nor returns to an older one, old injectors keep working, plus all C06 monitors.",
+   note="Same engine assumptions as C06."),
+ "C13": dict(engine="e2", technique=E2T+" with every point around the notification flag; deadlock = lost wake-up",
+   text="An event loop that only ticks when notified (tick(0); if running wait for notify) runs against the real worker on a one-thread pool with scheduling points at every step of the flag/lock handshake; every schedule up to preemption bound 1 (thorough 2): no enabled thread while the loop waits is a lost wake-up; a tick that reported running and is not superseded must be followed by a notify after the worker released its lock; injector notifies must follow publication.",
+   note="SC interleavings only: the need for the SeqCst fences of the repaired handshake is a weak-memory argument outside this engine."),
+ "C19": dict(engine="e2", technique=E2T+"; status monitors on every tick",
+   text="On every tick of the C06 scenario families: changed=false implies an identical view (matches, items, count, pattern); running=false implies every push of the current stream that returned before the tick began is counted and the snapshot pattern is the current pattern.",
+   note="Same engine assumptions as C06."),
+ "C20": dict(engine="e2", technique="exhaustive enumeration of handle histories (injector/clone/drop/restart/push/tick, tick branching on timeout vs completion) on the real Nucleo against a handle-count model",
+   text="Every history of up to 5 (thorough 6) operations over {take, clone, drop x2, restart(true), restart(false), push, tick}; after every operation active_injectors() must equal the number of live handles created for the current stream.",
+   note="Bounded depth; at most two tracked handle slots are cloned/dropped."),
 }
 PLANNED = {
  "C06":"check not built yet (planned: controlled scheduler over the real threads, DESIGN.md 2.2)",
@@ -84,6 +103,7 @@ m = {
  },
  "engines": [
    {"name":"e1","path":"harness/e1","serves_properties":sorted(k for k,v in CHECKS.items() if v["engine"]=="e1"),"kind_free_text":E1},
+   {"name":"e2","path":"harness/e1 (modules sched.rs, e2*.rs; same binary as e1)","serves_properties":sorted(k for k,v in CHECKS.items() if v["engine"]=="e2"),"kind_free_text":"controlled scheduler over real threads: token passing at cfg-gated hook points, monitor thread, stateless DFS with iterative preemption bounding, environment choices, replay"},
    {"name":"e3","path":"e3","serves_properties":sorted(k for k,v in CHECKS.items() if v["engine"]=="e3"),"kind_free_text":"loom (stateless DPOR exploration under the C11 memory model) on the real boxcar.rs included by path"},
  ],
  "checks": [],
